@@ -141,12 +141,11 @@ def handle : Handler := fun op inp impl => do
         holds := holds ++ [("C03.bind_rollout_waits", leavesInitHeld i e e' pre.tr post.tr && addedOnlyWhenOpen i pre.tr post.tr),
                            ("C05.bind_others_kept", othersKept i pre.tr post.tr),
                            ("C05.bind_finalise_finalizer_off", finaliseFinalizerOff i pos e e' post.tr),
-                           ("C05.bind_finalise_waits_for_restore", finaliseWaitsForRestore i pos e e' post.tr),
                            ("C06.bind_fault_reported", faultReported reached ierr e e' pre.tr post.tr)]
         tags := tags ++ [s!"pos:{posStr pos}", if e.bound then "bound" else "unbound",
                          s!"reason:{RV.Drv.RolloutSM.reasonStr e.w.ro.reason}", s!"fault:{(match f with | .none => "none" | .get => "get" | .update => "update")}"] ++
                         (if reached then ["fault:reached"] else []) ++
-                        (if guardCompletedBeforeRestored pos e e' post.tr then ["guard:completedBeforeRestored"] else []) ++
+                        (if guardCompletedBeforeRestored pos e e' post.tr then ["obs:completedBeforeRestored"] else []) ++
                         (if !(holdersOf pre.tr).contains i && (holdersOf post.tr).contains i then ["ro:adds-finalizer"] else []) ++
                         (if (holdersOf pre.tr).contains i && !(holdersOf post.tr).contains i then ["ro:removes-finalizer"] else []) ++
                         (if e.bound && initializing e.w.ro && rolling e'.w.ro then ["ro:leaves-init"] else []) ++
